@@ -145,21 +145,61 @@ let judge _id (c : cursor) (r : cursor) : bool * string =
       | "R" ->
         let q = next_pf c in let remove = next_int c <> 0 in
         let site = "FasterTrie::reconstruct" in
-        let (entries, fs) = (try
+        let (entries, fs, orders, dump) = (try
             let n = (match int_of_string_opt (next r) with Some i when i >= 0 && i < 100000 -> i | _ -> raise (Garbage "count")) in
             let es = List.init n (fun _ -> let id = next_small r in let k = next_smalls r in let v = next_smalls r in (id, (k, v))) in
-            let fs = next_smalls r in (es, fs)
+            let fs = next_smalls r in
+            let no = (match int_of_string_opt (next r) with Some i when i >= 0 && i < 1000 -> i | _ -> raise (Garbage "orders")) in
+            let orders = List.init no (fun _ -> next_smalls r) in
+            let dump = List.map (fun sz -> List.init (int_of_nat sz) (fun _ -> next_smalls r)) f in
+            (es, fs, orders, dump)
           with Failure m -> oracle_fail "no_UB" "ftrie" ("short/garbled implementation output: " ^ m)
              | Garbage g -> oracle_fail "reconstruct_compatible" site ("garbage " ^ g)) in
+        (* O: the spec's demands on the returned entries and factors *)
         if not (reconstruct_okb f (snd !s) q entries fs) then
           oracle_fail "reconstruct_compatible" site
             ("returned entries are not all stored / compatible with the query / mutually compatible, or the factors are wrong: ids "
              ^ str_nats (List.map fst entries) ^ " factors " ^ str_nats fs);
         recon := true;
-        if remove then
-          List.iter (fun (id, pf) ->
-              s := fst (spec_step !s (OErase id));
-              (match ft_step !t (OErasePf (id, pf)) with Ok (t', _) -> t := t' | _ -> disagree "ftrie_model" site "model UB while removing")) entries
+        (* C: the model, given the shuffles the implementation performed.  remove = false: the buckets
+           are left in shuffled order, so the dump IS the shuffle.  remove = true: per bucket, a shuffle
+           that yields the observed matched (M, in returned order) and kept (K, dump order) entries is
+           M1, K2.., then reversed (M2.., K1): after a match the implementation looks at the back. *)
+        let store = snd !s in
+        let entry_of id = (match List.find_opt (fun (i, _) -> int_of_nat i = int_of_nat id) store with
+            | Some e -> e | None -> disagree "reconstruct_state" site ("bucket holds id " ^ string_of_int (int_of_nat id) ^ " which is not stored")) in
+        let first_pair (_, (ks, vs)) = (match ks, vs with k :: _, v :: _ -> (int_of_nat k, int_of_nat v) | _ -> (-1, -1)) in
+        let keysS = List.mapi (fun i row -> List.mapi (fun v ids ->
+            let kept = List.map entry_of ids in
+            if not remove then kept else begin
+              let m = List.filter (fun e -> first_pair e = (i, v)) entries in
+              match m with
+              | [] -> kept
+              | m1 :: mrest ->
+                (match kept with
+                 | [] -> m1 :: List.rev mrest
+                 | k1 :: krest -> (m1 :: krest) @ List.rev (mrest @ [k1]))
+            end) row) dump in
+        let ids_of b = List.sort compare (List.map (fun (i, _) -> int_of_nat i) b) in
+        let mkeys = fkeys !t in
+        if List.length mkeys <> List.length keysS
+           || not (List.for_all2 (fun r1 r2 -> List.length r1 = List.length r2 && List.for_all2 (fun b1 b2 -> ids_of b1 = ids_of b2) r1 r2) mkeys keysS)
+        then disagree "reconstruct_state" site "the buckets (with the returned entries put back) are not a permutation of the model's buckets";
+        let (ord0, ordv) = (match orders with o0 :: rest -> (o0, rest) | [] -> disagree "reconstruct_state" site "no orders_") in
+        (match ft_reconstruct !t q remove ord0 ordv keysS with
+         | Ok ((t', m_entries), m_f) ->
+           let show es = str_nats (List.map fst es) in
+           if List.map (fun (i, _) -> int_of_nat i) m_entries <> List.map (fun (i, _) -> int_of_nat i) entries
+              || not (List.for_all2 (fun (_, p1) (_, p2) -> pf_eqb p1 p2) m_entries entries) then
+             disagree "reconstruct_model" site ("entries: impl " ^ show entries ^ " model " ^ show m_entries);
+           if List.map int_of_nat m_f <> List.map int_of_nat fs then
+             disagree "reconstruct_model" site ("factors: impl " ^ str_nats fs ^ " model " ^ str_nats m_f);
+           let ids_exact ll = List.map (List.map (List.map (fun (i, _) -> int_of_nat i))) ll in
+           if ids_exact (fkeys t') <> List.map (List.map (List.map int_of_nat)) dump then
+             disagree "reconstruct_model" site "buckets after the call differ between model and implementation";
+           t := t'
+         | _ -> disagree "reconstruct_model" site "model reaches UB");
+        if remove then List.iter (fun (id, _) -> s := fst (spec_step !s (OErase id))) entries
       | _ -> failwith ("unknown ftrie op " ^ tok)
     done;
     ((!erased || !recon) && !partial, "ftrie" ^ string_of_int (List.length f) ^ (if !recon then "+reconstruct" else ""))
@@ -171,11 +211,20 @@ let judge _id (c : cursor) (r : cursor) : bool * string =
     let ordered = (kind = "fmT") in
     let s = ref (O, []) in
     let nq = ref 0 in
+    (* C (Trie back-end only): the FilterMap/IndexMap model, items are the nats 1000+id; the abstract
+       store of (key, item) pairs of Spec.fm_spec is kept beside it *)
+    let fm = ref (if ordered then (match fm_new f with Ok m -> Some m | _ -> None) else None) in
+    let pairs_ = ref [] in
     while not (at_end c) do
       let tok = next c in
       match tok with
       | "i" -> let pf = next_pf c in
         if not (ft_op_okb f !s (OInsert pf)) then failwith "generator: bad FilterMap insert";
+        let item = nat_of_int (1000 + List.length (snd !s)) in
+        pairs_ := !pairs_ @ [(pf, item)];
+        (match !fm with
+         | Some m -> (match fm_emplace m pf item with Ok m' -> fm := Some m' | _ -> disagree "filtermap_model" "FilterMap::emplace" "model UB")
+         | None -> ());
         s := fst (spec_step !s (OInsert pf))
       | "F" | "f" | "p" ->
         let o = (match tok with
@@ -185,13 +234,30 @@ let judge _id (c : cursor) (r : cursor) : bool * string =
         if not (op_okb f !s o) then failwith "generator: bad FilterMap query";
         let e = (match snd (spec_step !s o) with RIds l -> List.map (fun n -> 1000 + int_of_nat n) l | _ -> failwith "spec") in
         let norm l = if ordered then l else List.sort compare l in
+        let q = (match o with OFilterF (ff, off) -> (List.mapi (fun j _ -> nat_of_int (int_of_nat off + j)) ff, ff) | OFilterPf pf -> pf | _ -> ([], [])) in
+        if ordered && List.map int_of_nat (fm_spec !pairs_ q) <> e then failwith "fm_spec and filter_spec disagree (spec bug)";
+        let model which = (match !fm with
+            | None -> None
+            | Some m ->
+              let res = (match tok, which with
+                  | "F", "" -> fm_filterF m (fst (match o with OFilterF (ff, _) -> (ff, ()) | _ -> ([], ())))
+                  | "F", _ -> fm_filterF_const m (match o with OFilterF (ff, _) -> ff | _ -> [])
+                  | "f", "" -> (match o with OFilterF (ff, off) -> fm_filterFO m ff off | _ -> UB)
+                  | "f", _ -> (match o with OFilterF (ff, off) -> fm_filterFO_const m ff off | _ -> UB)
+                  | _, "" -> (match o with OFilterPf pf -> fm_filterPf m pf | _ -> UB)
+                  | _, _ -> (match o with OFilterPf pf -> fm_filterPf_const m pf | _ -> UB)) in
+              Some res) in
         let one which =
           let site = "FilterMap::filter" ^ (match tok with "f" -> "(f,offset)" | "p" -> "(pf)" | _ -> "(f)") ^ which in
           let got = (try List.map int_of_nat (next_smalls r) with
               | Failure m -> oracle_fail "no_UB" kind ("short/garbled implementation output: " ^ m)
               | Garbage g -> oracle_fail "FilterMap.items_of_matching_ids" site ("garbage " ^ g)) in
           if norm got <> norm e then
-            oracle_fail "FilterMap.items_of_matching_ids" site ("impl items " ^ str_ints got ^ " expected " ^ str_ints e) in
+            oracle_fail "FilterMap.items_of_matching_ids" site ("impl items " ^ str_ints got ^ " expected " ^ str_ints e);
+          (match model which with
+           | None -> ()
+           | Some (Ok l) -> if List.map int_of_nat l <> got then disagree "filtermap_model" site ("impl items " ^ str_ints got ^ " model " ^ str_nats l)
+           | Some _ -> disagree "filtermap_model" site "model reaches UB") in
         one ""; one "const";
         incr nq
       | "z" ->
@@ -199,6 +265,7 @@ let judge _id (c : cursor) (r : cursor) : bool * string =
                       with Garbage g -> oracle_fail "FilterMap.size" "FilterMap::size" ("garbage " ^ g)) in
         let n = List.length (snd !s) in
         if a <> n then oracle_fail "FilterMap.size" "FilterMap::size" "size differs from the number of stored items";
+        (match !fm with Some m -> if int_of_nat (fm_size m) <> a then disagree "filtermap_model" "FilterMap::size" "model size differs" | None -> ());
         if b <> n then oracle_fail "size_eq_card" "FilterMap::getTrie" "trie size differs from the number of stored items";
         let okc = next_int r in let okf = next_int r in
         if okc <> 1 then oracle_fail "FilterMap.container" "FilterMap::operator[]" "operator[] / begin..end / getContainer disagree";
